@@ -22,7 +22,8 @@ EXTENDS Integers, Sequences, FiniteSets, TLC
 CONSTANTS Template,        \* sequence of layer types, parents before children
           Names,           \* object names, e.g. {"o"}
           CpKeys,          \* comparam keys <<name, protocol qualifier or "">> that may be set locally
-          MaxCp            \* at most this many local comparams per layer
+          MaxCp,           \* at most this many local comparams per layer
+          Rev              \* the PARENT-REFs of a layer are written in descending (TRUE) or ascending (FALSE) layer order
 
 VARIABLES k, parents, defs, ni, cps
 vars == <<k, parents, defs, ni, cps>>
@@ -79,8 +80,11 @@ Merge(i, n, useNi) == IF n \in defs[i] THEN i ELSE MergeParents(i, n, useNi, Sor
 
 ---------------------------------------------------------------------------
 (* C15: communication parameters.  Key = <<name, protocol qualifier>>, value = defining layer.      *)
-(* Parents are merged from low to high priority (ECU-SHARED-DATA does not take part), local last.   *)
+(* Parents are merged from low to high priority (ECU-SHARED-DATA does not take part), local last;   *)
+(* among parents of EQUAL priority the one written later in the document wins (the order in which   *)
+(* parents of different priority are written is irrelevant).                                        *)
 RECURSIVE Effective(_)
+WrittenNoLater(q, p) == IF Rev THEN p <= q ELSE q <= p
 CpParents(i) == {p \in parents[i] : Template[p] # "ECU-SHARED-DATA"}
 Effective(i) ==
     LET fromParents ==
@@ -88,7 +92,7 @@ Effective(i) ==
               LET have == {p \in CpParents(i) : Effective(p)[key] # Absent} IN
               IF have = {} THEN Absent
               ELSE LET best == CHOOSE p \in have : \A q \in have : Prio(Template[q]) < Prio(Template[p]) \/
-                                                         (Prio(Template[q]) = Prio(Template[p]) /\ q <= p)
+                                                         (Prio(Template[q]) = Prio(Template[p]) /\ WrittenNoLater(q, p))
                    IN Effective(best)[key]]
     IN [key \in CpKeys |-> IF key \in cps[i] THEN i ELSE fromParents[key]]
 \* lookup by name and protocol: the protocol-specific definition before the generic one
